@@ -295,6 +295,7 @@ type vpC12Run struct {
 	maxIP   int
 	mode    string // "serve", "serveconn", "mixed"
 	keepHj  bool
+	hotIP   int
 	ln      *vpC12Listener
 	serveCh chan error
 	wg      sync.WaitGroup
@@ -876,7 +877,7 @@ func (r *vpC12Run) drawKind(label string) int {
 func (r *vpC12Run) stepOpen() {
 	t := r.t
 	via := r.pickPath()
-	ipIdx := rapid.SampledFrom([]int{0, 0, 1, 1, 2, 3, 4, 5}).Draw(t, "ip")
+	ipIdx := rapid.SampledFrom([]int{r.hotIP, r.hotIP, r.hotIP, 0, 1, 2, 3, 4, 5}).Draw(t, "ip")
 	kind := r.drawKind("kind")
 	shape := rapid.IntRange(0, 2).Draw(t, "shape")
 	if rapid.Bool().Draw(t, "settleFirst") {
@@ -902,7 +903,7 @@ func (r *vpC12Run) stepBurst() {
 	k := rapid.IntRange(2, r.conc+2).Draw(t, "burst")
 	ips := make([]int, k)
 	for i := range ips {
-		ips[i] = rapid.SampledFrom([]int{0, 0, 1, 2, 3, 4, 5}).Draw(t, "bip")
+		ips[i] = rapid.SampledFrom([]int{r.hotIP, r.hotIP, 0, 1, 2, 3, 4, 5}).Draw(t, "bip")
 	}
 	if r.mixedClass(via, k-1) {
 		if vpKnownOpen(vpC12KeyMixed) {
@@ -1199,8 +1200,9 @@ func vpC12Case(t *rapid.T) {
 	mode := rapid.SampledFrom([]string{"serve", "serve", "serveconn", "mixed", "mixed"}).Draw(t, "mode")
 	keepHj := rapid.Bool().Draw(t, "keepHijacked")
 	reduceMem := rapid.Bool().Draw(t, "reduceMem")
+	hotIP := rapid.IntRange(0, 3).Draw(t, "hotIP") // the address most arrivals come from
 
-	r := &vpC12Run{t: t, conc: conc, maxIP: maxIP, mode: mode, keepHj: keepHj,
+	r := &vpC12Run{t: t, conc: conc, maxIP: maxIP, mode: mode, keepHj: keepHj, hotIP: hotIP,
 		reg: map[string]*vpC12Req{}, inHandler: map[int]int{}}
 	s := &Server{
 		Handler:           r.handler,
@@ -1267,7 +1269,7 @@ func vpC12Case(t *rapid.T) {
 
 	nSteps := rapid.IntRange(4, 16).Draw(t, "steps")
 	for i := 0; i < nSteps; i++ {
-		op := rapid.SampledFrom([]string{"open", "open", "open", "open", "burst", "release", "release", "request", "request", "clientClose", "hijackRelease", "settle"}).Draw(t, "op")
+		op := rapid.SampledFrom([]string{"open", "open", "open", "burst", "release", "release", "release", "request", "request", "clientClose", "hijackRelease", "hijackRelease", "settle"}).Draw(t, "op")
 		done := false
 		switch op {
 		case "open":
@@ -1295,7 +1297,8 @@ func vpC12Case(t *rapid.T) {
 		r.checkCounters("after " + op)
 	}
 
-	// quiescence
+	// quiescence (the flags used for the non-triviality rule describe the generated part only)
+	gen503, gen429 := r.saw503, r.saw429
 	r.script = append(r.script, "closeAll")
 	r.closeEverything()
 	r.quiescent("at quiescence")
@@ -1340,10 +1343,10 @@ func vpC12Case(t *rapid.T) {
 	if maxIP == 0 {
 		class += "/perIP-off"
 	}
-	if r.saw503 {
+	if gen503 {
 		class += "/503"
 	}
-	if r.saw429 {
+	if gen429 {
 		class += "/429"
 	}
 	if r.sawHijack {
@@ -1356,7 +1359,7 @@ func vpC12Case(t *rapid.T) {
 		class += "/mixed-overlap"
 	}
 	// the re-admission phase always reaches both limits; non-triviality is about the generated part
-	nontrivial := (r.saw503 || r.saw429) && (r.sawHijack || r.sawError)
+	nontrivial := (gen503 || gen429) && (r.sawHijack || r.sawError)
 	key := fmt.Sprintf("c=%d ip=%d %s k=%v rm=%v %s", conc, maxIP, mode, keepHj, reduceMem, strings.Join(r.script, " "))
 	vpCase(class, nontrivial, key, func() string { return key })
 	vpExtra("c12_connections", int64(len(r.conns)))
